@@ -46,6 +46,15 @@ fn export(c: &Case, fast_err: bool) {
             return;
         }
         *e += 1;
+    } else if c.class.starts_with("child-") && c.alg.n() == 16 && c.base.levels.iter().all(|l| l.w == 1) {
+        // inputs that are only interesting to a build with debug assertions (the interpreter stage
+        // is one): a few per class, of the cheapest multi-level key
+        let k = format!("{}|slow", c.class);
+        let e = co.per_class.entry(k).or_insert(0);
+        if *e >= 2 {
+            return;
+        }
+        *e += 1;
     } else {
         // complete verifications are expensive under the interpreter: smallest signatures only
         if co.slow >= 4 || c.alg.n() != 16 || c.sig.len() > 2400 || c.base.levels.len() != 1 || c.base.levels[0].w != 1 {
@@ -86,7 +95,7 @@ fn probe(w: &mut Worker, c: Case, nth: &mut u64) {
         r.count(&format!("outcome_{}", out.kind()), 1);
         if e == libcall::VerifyEntry::Bytes && !crate::common::miri_mode() && cfg!(feature = "hooks") {
             let fast_err = out.is_err() && t0.elapsed().as_nanos() < 4000;
-            if fast_err || out.is_ok() {
+            if fast_err || out.is_ok() || c.class.starts_with("child-") {
                 export(&c, fast_err);
             }
         }
